@@ -29,14 +29,18 @@ type Options struct {
 	Verbose                  bool
 	SolverLog                string
 	Seed                     int64
+	Profile                  bool
+	CheckAbstract            bool
+	ConfirmEvery             int // re-ask deciding queries to the confirming solver on every n-th path
 }
 
 type Stats struct {
 	Paths, PathsOK, AssumeFalse, Infeasible, Budget, Unsupported int64
 	Forks, Pruned                                                 int64
 	FeasQueries, Obligations, Discharged, Inconclusive           int64
-	ConcreteChecks, ConcreteAsserts                               int64
+	ConcreteChecks, ConcreteAsserts, ImpliedChecks                int64
 	ConfirmQueries, ConfirmUnknown, Disagreements, Unknowns       int64
+	BatchQueries, BatchNs, PrunedAbs, AbsCrossChecks              int64
 	Merges, MergeAborts                                           int64
 	Steps                                                         int64
 	SymbolicPaths, NontrivialPaths                                int64
@@ -57,10 +61,15 @@ func (s *Stats) add(o *Stats) {
 	s.Inconclusive += o.Inconclusive
 	s.ConcreteChecks += o.ConcreteChecks
 	s.ConcreteAsserts += o.ConcreteAsserts
+	s.ImpliedChecks += o.ImpliedChecks
 	s.ConfirmQueries += o.ConfirmQueries
 	s.ConfirmUnknown += o.ConfirmUnknown
 	s.Disagreements += o.Disagreements
 	s.Unknowns += o.Unknowns
+	s.BatchQueries += o.BatchQueries
+	s.BatchNs += o.BatchNs
+	s.PrunedAbs += o.PrunedAbs
+	s.AbsCrossChecks += o.AbsCrossChecks
 	s.Merges += o.Merges
 	s.MergeAborts += o.MergeAborts
 	s.Steps += o.Steps
@@ -191,6 +200,8 @@ type Engine struct {
 	solverErrors int
 	errType    any
 	initialPrefix []int32
+	profile    map[string]int
+	dbg        map[string]string
 }
 
 func (e *Engine) stopped() bool { return e.stopFlag.Load() }
@@ -203,6 +214,30 @@ func (e *Engine) note(s string) {
 	}
 	e.noteSeen[s] = true
 	e.notes = append(e.notes, s)
+}
+
+func (e *Engine) dbgSet(p []int32, s string) {
+	e.mu.Lock()
+	if e.dbg == nil {
+		e.dbg = map[string]string{}
+	}
+	e.dbg[fmt.Sprint(p)] = s
+	e.mu.Unlock()
+}
+
+func (e *Engine) dbgFor(p []int32) string {
+	e.mu.Lock()
+	defer e.mu.Unlock()
+	return e.dbg[fmt.Sprint(p)]
+}
+
+func (e *Engine) prof(k string) {
+	e.mu.Lock()
+	if e.profile == nil {
+		e.profile = map[string]int{}
+	}
+	e.profile[k]++
+	e.mu.Unlock()
 }
 
 func (e *Engine) usedNote(k string) bool {
@@ -243,57 +278,28 @@ func (w *W) assertCond(c *Term, msg string, pos token.Pos) {
 		w.st.ConcreteAsserts++
 		return
 	}
-	w.st.Obligations++
 	if c.IsFalse() {
+		w.st.Obligations++
 		w.violation("assert", msg, nil)
 		panic(pathEnd{endOK, "assertion failed: " + msg})
 	}
-	neg := w.ts.Not(c)
-	switch w.checkSat(neg) {
-	case Unsat:
-		if w.confirmUnsat(neg) {
-			w.st.Discharged++
-		}
-	case Sat:
-		w.violation("assert", msg, neg)
-	default:
-		w.st.Inconclusive++
-		w.note("inconclusive assertion: " + msg + w.posStr(pos))
+	if w.known(c) {
+		w.st.ImpliedChecks++
+		return
 	}
-	w.addPC(c)
+	w.obligation(c, "assert", msg)
 }
 
-// violation records a counterexample: the current path condition plus extra
-// must be satisfiable; the model is turned into concrete primitive results.
-func (w *W) violation(kind, msg string, extra *Term) {
-	if w.guard != nil {
-		// inside a speculated region the fact is only conditional
-		if extra == nil {
-			panic(mergeAbort{"violation under guard"})
-		}
-	}
+// recordViolation extracts a model of f (just found satisfiable by the
+// primary solver in the current scope) and records the counterexample.
+func (w *W) recordViolation(kind, msg string, f *Term) {
 	key := kind + ":" + msg
 	w.e.mu.Lock()
 	seen := w.e.violSeen[key]
 	w.e.mu.Unlock()
-	if seen && !w.e.opts.ForceFalse {
+	if seen {
 		return
 	}
-	w.syncPC()
-	var lits []*Term
-	if extra != nil {
-		lits = append(lits, extra)
-	}
-	r := w.sol.Check(lits...)
-	if r == Unsat {
-		return // infeasible after all (earlier unknown)
-	}
-	if r == Unknown {
-		w.note("violation candidate with unknown model: " + msg)
-		w.st.Inconclusive++
-		return
-	}
-	// collect variables of the trace
 	seenT := map[int32]bool{}
 	vars := map[string]*Term{}
 	for _, tv := range w.trace {
@@ -308,33 +314,32 @@ func (w *W) violation(kind, msg string, extra *Term) {
 			Vars(tv.T, seenT, vars)
 		}
 	}
-	var vl []*Term
+	Vars(f, seenT, vars)
 	names := make([]string, 0, len(vars))
 	for n := range vars {
 		names = append(names, n)
 	}
 	sort.Strings(names)
+	var vl []*Term
 	for _, n := range names {
 		vl = append(vl, vars[n])
 	}
-	// re-check with the literal asserted so that get-value sees the model
 	w.sol.Push()
-	for _, l := range lits {
-		w.sol.Assert(l)
-	}
 	defer w.sol.Pop()
+	w.sol.Assert(f)
 	if w.sol.Check() != Sat {
 		w.note("model query failed for: " + msg)
+		w.st.Inconclusive++
 		return
 	}
 	env, err := w.sol.Values(vl)
 	if err != nil {
 		w.note("get-value failed: " + err.Error())
+		w.st.Inconclusive++
 		return
 	}
 	v := &Violation{Kind: kind, Msg: msg, Harness: w.e.entry.Name(), Decisions: append([]int32(nil), w.decisions...)}
 	v.Trace = w.concretizeTrace(env)
-	w.pathViol = true
 	w.e.mu.Lock()
 	defer w.e.mu.Unlock()
 	if w.e.violSeen[key] {
@@ -412,6 +417,11 @@ func (w *W) runPath(prefix []int32) {
 	w.noFork = false
 	w.inHook = false
 	w.notes = w.notes[:0]
+	w.pcSet = map[int32]struct{}{}
+	w.absReset()
+	w.obligs = w.obligs[:0]
+	w.nextOb = 0
+	w.pviols = w.pviols[:0]
 	w.sol.Push()
 	end := pathEnd{kind: endOK}
 	func() {
@@ -437,6 +447,9 @@ func (w *W) runPath(prefix []int32) {
 		}
 	}()
 	w.sol.Pop()
+	if end.kind != endStop {
+		w.flush()
+	}
 	w.undoInitWrites()
 	w.st.Paths++
 	w.st.Steps += int64(w.steps)
